@@ -371,11 +371,12 @@ def run(ctx):
     model = ctx.model
     for m in ("__init__", "pull", "receive_reward", "make_active", "get_last_point"):
         ctx.fn("Zooming.%s" % m)
-    check_index(ctx)
-    check_mean(ctx)
-    check_refine(ctx)
-    check_cover(ctx)
-    check_make_active(ctx)
+    fz = model.cls("Zooming").file
+    ctx.attempt("R11-INDEX", fz, "Zooming.pull", "arm index", check_index, ctx)
+    ctx.attempt("R11-MEAN", fz, "Zooming.receive_reward", "arm statistics", check_mean, ctx)
+    ctx.attempt("R11-REFINE", fz, "Zooming.receive_reward", "refinement", check_refine, ctx)
+    ctx.attempt("R11-COVER", fz, "Zooming.receive_reward", "hand-over", check_cover, ctx)
+    ctx.attempt("R11-COVER", fz, "Zooming.make_active", "activation", check_make_active, ctx)
     from . import c03
     tmp = Ctx(ctx.prop, ctx.tier, ctx.seed, model)
     c03.check_sites(tmp)
